@@ -46,6 +46,9 @@ func TestHOBGenericHeader(t *testing.T) {
 		name: "hob/header", what: "PI spec EFI_HOB_GENERIC_HEADER {UINT16 HobType; UINT16 HobLength; UINT32 Reserved}",
 		size: 8, abiSize: oabi.SizeofHOBGenericHeader,
 		flds: []fld{{"type", 0, 2, fU}, {"length", 2, 4, fU}, {"reserved", 4, 8, fZero}},
+		// PI spec: HobLength covers the header and HOBs are 8-byte aligned
+		canon:     map[int]uint64{1: 8},
+		mayRefuse: func(v []val) bool { return v[1].u < 8 || v[1].u%8 != 0 },
 	}
 	s.enc = writeToEnc(func(v []val) writerTo { return hdrOf(v) })
 	runFlat(t, s, ev.Scale(2000, 12000))
@@ -57,6 +60,9 @@ func TestHOBHandoffInfoTable(t *testing.T) {
 		size: 56, abiSize: oabi.SizeOfEFIHOBHandoffInfoTable,
 		flds: []fld{{"type", 0, 2, fU}, {"length", 2, 4, fU}, {"reserved", 4, 8, fZero}, {"version", 8, 12, fU}, {"bootmode", 12, 16, fU},
 			{"memtop", 16, 24, fU}, {"membottom", 24, 32, fU}, {"freetop", 32, 40, fU}, {"freebottom", 40, 48, fU}, {"endofhoblist", 48, 56, fU}},
+		// PI spec: a PHIT HOB has HobType 1, HobLength 56 and Version 9; a writer that insists on them is correct too
+		canon:     map[int]uint64{0: 1, 1: 56, 3: 9},
+		mayRefuse: func(v []val) bool { return v[0].u != 1 || v[1].u != 56 || v[3].u != 9 },
 	}
 	s.enc = writeToEnc(func(v []val) writerTo {
 		return oabi.EFIHOBHandoffInfoTable{Header: hdrOf(v), Version: uint32(v[3].u), BootMode: oabi.EFIBootMode(v[4].u),
@@ -72,6 +78,9 @@ func TestHOBResourceDescriptor(t *testing.T) {
 		size: 48, abiSize: oabi.SizeofEFIHOBResourceDescriptor,
 		flds: []fld{{"type", 0, 2, fU}, {"length", 2, 4, fU}, {"reserved", 4, 8, fZero}, {"owner", 8, 24, fGUID}, {"resourcetype", 24, 28, fU},
 			{"attribute", 28, 32, fU}, {"start", 32, 40, fU}, {"resourcelength", 40, 48, fU}},
+		// PI spec: a resource descriptor HOB has HobType 3 and HobLength 48
+		canon:     map[int]uint64{0: 3, 1: 48},
+		mayRefuse: func(v []val) bool { return v[0].u != 3 || v[1].u != 48 },
 	}
 	s.enc = writeToEnc(func(v []val) writerTo {
 		return oabi.EFIHOBResourceDescriptor{Header: hdrOf(v), Owner: efiGUIDFromVal(v[3]), ResourceType: oabi.EFIResourceType(v[4].u),
@@ -82,10 +91,10 @@ func TestHOBResourceDescriptor(t *testing.T) {
 
 func TestHOBConstants(t *testing.T) {
 	const name = "hob/constants"
-	ev.Rule(name, "PI spec constants: HOB types HANDOFF=1 RESOURCE_DESCRIPTOR=3 GUID_EXTENSION=4 END_OF_HOB_LIST=0xFFFF, handoff table version 9, EFI_RESOURCE_SYSTEM_MEMORY=0, EFI_RESOURCE_MEMORY_UNACCEPTED=7, attributes PRESENT=1 INITIALIZED=2 TESTED=4, GUID HOB header 24 bytes; complete")
+	ev.Rule(name, "PI spec constants: HOB types HANDOFF=1 RESOURCE_DESCRIPTOR=3 GUID_EXTENSION=4 END_OF_HOB_LIST=0xFFFF, handoff table version 9, EFI_RESOURCE_SYSTEM_MEMORY=0, EFI_RESOURCE_MEMORY_UNACCEPTED=7, attributes PRESENT=1 INITIALIZED=2 TESTED=4, GUID HOB header 24 bytes, largest GUID HOB payload 0xFFF8-24 = 65504 (HobLength is a UINT16 and HOBs are 8-byte aligned); complete")
 	got := []uint64{oabi.EFIHOBTypeHandoff, oabi.EFIHOBTypeResourceDescriptor, oabi.EFIHOBTypeGUIDExtension, oabi.EFIHOBTypeEndOfHOBList, oabi.EFIHOBHandoffTableVersion,
-		uint64(oabi.EFIResourceSystemMemory), uint64(oabi.EFIResourceMemoryUnaccepted), uint64(oabi.EFIResourceAttributePresent), uint64(oabi.EFIResourceAttributeInitialized), uint64(oabi.EFIResourceAttributeTested), oabi.SizeofHOBGUID}
-	want := []uint64{1, 3, 4, 0xFFFF, 9, 0, 7, 1, 2, 4, 24}
+		uint64(oabi.EFIResourceSystemMemory), uint64(oabi.EFIResourceMemoryUnaccepted), uint64(oabi.EFIResourceAttributePresent), uint64(oabi.EFIResourceAttributeInitialized), uint64(oabi.EFIResourceAttributeTested), oabi.SizeofHOBGUID, oabi.MaxGUIDHOBDataSize}
+	want := []uint64{1, 3, 4, 0xFFFF, 9, 0, 7, 1, 2, 4, 24, specMaxGUIDHOBData}
 	for i := range want {
 		if got[i] != want[i] {
 			ev.Violation(t, "C18/hob-constant", "HOB constant #%d is %d, PI spec says %d", i, got[i], want[i])
@@ -98,12 +107,15 @@ func TestHOBConstants(t *testing.T) {
 // GUID extension HOB writer.
 func TestHOBGUIDWriteTo(t *testing.T) {
 	const name = "hob/guid"
-	ev.Rule(name, "EFIHOBGUID{Header, GUID, Data} with data length 0..64 (and occasionally ~4 KiB), HobType in {4, other}, HobLength in {24+len, off by +-1/+-8, arbitrary}; oracle: type 4 and length 24+len => WriteTo succeeds, returns 24+len, bytes == header image (type@0 len@2 zero@4) + EFI GUID @8 + data @24; anything else refused; changing the GUID changes only [8,24), changing data byte i only 24+i; non-trivial = data non-empty or refused; distinct = (class, length bucket)")
+	ev.Rule(name, "EFIHOBGUID{Header, GUID, Data} with data length 0..64 (and occasionally ~4 KiB), HobType in {4, other}, HobLength in {24+len, off by +-1/+-8, arbitrary}; oracle: type 4 and length 24+len => WriteTo succeeds, returns 24+len, bytes == header image (type@0 len@2 zero@4) + EFI GUID @8 + data @24 (a refusal of a length that is not a multiple of 8 is a legal strict writer: class unaligned/refused-strict); anything else refused; changing the GUID changes only [8,24), changing data byte i only 24+i; non-trivial = data non-empty or refused; distinct = (class, length bucket)")
 	checks(ev.Scale(2000, 12000))
 	rapid.Check(t, func(t *rapid.T) {
 		n := rapid.IntRange(0, 64).Draw(t, "len")
 		if rapid.IntRange(0, 15).Draw(t, "big") == 0 {
 			n = rapid.IntRange(4000, 4100).Draw(t, "biglen")
+		}
+		if rapid.Bool().Draw(t, "aligned") {
+			n &^= 7 // the PI spec's HOBs are 8-byte aligned: half of the cases are
 		}
 		data := genBytes(t, n, "data")
 		gb := genBytes(t, 16, "guid")
@@ -134,13 +146,18 @@ func TestHOBGUIDWriteTo(t *testing.T) {
 				ev.Violation(t, "C18/out-of-range-accepted/hob/guid", "GUID HOB with type %d length %d for %d data bytes accepted", typ, length, n)
 				return
 			}
-			ev.Case(name, true, class, class, func() any { return map[string]any{"type": typ, "length": length, "data": n} })
+			ev.Case(name, true, fmt.Sprintf("%s/type=%d/dlen=%d", class, typ, length-24-n), class, func() any { return map[string]any{"type": typ, "length": length, "data": n} })
 			return
 		}
 		want := append(le(4, 2), le(uint64(24+n), 2)...)
 		want = append(want, 0, 0, 0, 0)
 		want = append(want, refEFI(toUUID(gb))...)
 		want = append(want, data...)
+		if err != nil && n%8 != 0 {
+			// PI spec: HOBs are 8-byte aligned; a writer that refuses an unaligned HobLength is correct
+			ev.Case(name, true, fmt.Sprintf("unaligned-refused/%d", n%8), "unaligned/refused-strict", nil)
+			return
+		}
 		if err != nil || int(cnt) != 24+n || !bytes.Equal(w.Bytes(), want) {
 			ev.Violation(t, "C18/wrong-layout/hob/guid", "GUID HOB with %d data bytes: err=%v count=%d bytes %s, PI layout gives %s", n, err, cnt, hx(w.Bytes()), hx(want))
 			return
@@ -174,7 +191,11 @@ func TestHOBGUIDWriteTo(t *testing.T) {
 		} else if n > 0 {
 			lb = "1-64"
 		}
-		ev.Case(name, n > 0, "valid/"+lb, "valid/"+lb, func() any { return map[string]any{"data": n, "bytes": hx(want)} })
+		al := "/aligned"
+		if n%8 != 0 {
+			al = "/unaligned"
+		}
+		ev.Case(name, n > 0, fmt.Sprintf("valid/%s/%d/probe[%d,%d)", lb, n%8, lo-24, hi-24), "valid/"+lb+al, func() any { return map[string]any{"data": n, "bytes": hx(want)} })
 	})
 }
 
